@@ -582,6 +582,7 @@ def gen_system_bundle(rng, depth=1, size=6, n_templates=2, **kw):
         signals = {}   # name -> length
         sig_names = []
         sysports = []
+        d = rng.choice(subdirs)      # directory of this system file
         for k in range(n_inst):
             t = rng.choice(avail)
             alias = None
@@ -590,11 +591,17 @@ def gen_system_bundle(rng, depth=1, size=6, n_templates=2, **kw):
             if rng.random() < 0.3:
                 alias = "Al%d" % rng.randint(0, 99)
                 tname = alias
-            if tname in imports and imports[tname] != t["path"]:
+            # imports are searched in the importing file's directory first: spell a sibling by its bare name
+            ipath = t["path"]
+            if d and t["path"].startswith(d) and rng.random() < 0.7:
+                ipath = t["path"][len(d):]
+            elif "/" in t["path"] and rng.random() < 0.35:
+                ipath = base          # lives elsewhere: only the include path can find it
+            if tname in imports and imports[tname] != ipath:
                 continue
             if tname not in imports:
-                imports[tname] = t["path"]
-                stmts.append({"k": "import", "items": [[t["path"], alias]]})
+                imports[tname] = ipath
+                stmts.append({"k": "import", "items": [[ipath, alias]]})
             iname = "g%d" % k if rng.random() < 0.7 else "Gate_%d" % k
             def bind(plist):
                 out = []
@@ -617,7 +624,6 @@ def gen_system_bundle(rng, depth=1, size=6, n_templates=2, **kw):
         inputs = [{"name": s, "star": rng.random() < 0.3} for s in chosen[:n_in]]
         outputs = [{"name": s, "star": rng.random() < 0.3} for s in chosen[n_in:]]
         ast = {"kind": "sys", "name": name, "params": [], "inputs": inputs, "outputs": outputs, "stmts": stmts}
-        d = rng.choice(subdirs)
         path = d + "sys%d" % counter[0]
         counter[0] += 1
         info = {"path": path, "kind": "sys", "ast": ast,
